@@ -519,6 +519,77 @@ func TestVerif_C09(t *testing.T) {
 			r.Pass(id)
 		}
 	}
+	// RedirAddr without a port and several listening ports (ck-server's default is 443 and 80): every
+	// unauthenticated peer is relayed to the redirect host on the port IT connected to
+	for i := 0; i < r.Pick(4, 40); i++ {
+		id := fmt.Sprintf("redirect-port-%d", i)
+		if !r.Mine(id) {
+			continue
+		}
+		r.Case(id, nil)
+		var vkind, vdet string
+		p, leftover := vk.InBubble(t, func() {
+			rng := r.Rand("c09p", i)
+			g := newSrvRig(t, srvOpts{RedirNoPort: true})
+			defer g.cleanup()
+			ports := []string{"443", "80", "8443"}
+			lis := map[string]*vk.Listener{"443": g.lis}
+			for _, pt := range ports[1:] {
+				lis[pt] = g.net.Listen("10.9.9.9:" + pt)
+				go Serve(lis[pt], g.sta)
+			}
+			g.serve()
+			go func() { // the redirect target swallows everything
+				for {
+					c, err := g.redirL.Accept()
+					if err != nil {
+						return
+					}
+					go io.Copy(io.Discard, c)
+				}
+			}()
+			for k := 0; k < 9 && vkind == ""; k++ {
+				pt := ports[(k+rng.IntN(2)+i)%3]
+				c, err := lis[pt].Dial("tcp", "")
+				if err != nil {
+					vkind, vdet = "harness", err.Error()
+					return
+				}
+				junk := []byte(fmt.Sprintf("GET /%d HTTP/1.1\r\nHost: example.com\r\n\r\n", k))
+				if k%2 == 1 {
+					junk = make([]byte, 200+rng.IntN(300))
+					for b := range junk {
+						junk[b] = byte(rng.Uint32())
+					}
+				}
+				c.Write(junk)
+				vk.Wait()
+				time.Sleep(20 * time.Second)
+				vk.Wait()
+				g.mu.Lock()
+				dials := append([]string{}, g.redirDials...)
+				g.mu.Unlock()
+				want := "tcp!10.0.0.3:" + pt
+				if len(dials) != k+1 {
+					vkind, vdet = "not-relayed", fmt.Sprintf("peer %d (connected to port %s) was not relayed: %d redirect dials after %d unauthenticated peers", k, pt, len(dials), k+1)
+				} else if dials[k] != want {
+					vkind, vdet = "redirect-port", fmt.Sprintf("RedirAddr has no port; peer %d connected to port %s but was relayed to %s (a RedirAddr without port means: the same port the peer connected to, so that it sees the service a direct visitor of that port would see); earlier dials %v", k, pt, dials[k], dials[:k])
+				}
+				c.Close()
+			}
+			r.Count("redirect_port_peers", 9)
+		})
+		if p != nil && !leftover && vkind == "" {
+			vkind, vdet = "panic", fmt.Sprint(p)
+		}
+		r.Count("evaluations", 1)
+		r.Distinct("cases", vk.Hash64("rport", i))
+		if vkind != "" {
+			r.Violation(id, "C09:"+vkind, vdet, nil)
+		} else {
+			r.Pass(id)
+		}
+	}
 	// concurrent hostile peers: unique long streams, judged by content
 	for blk := 0; blk < r.Pick(6, 100); blk++ {
 		id := fmt.Sprintf("concurrent-block-%d", blk)
